@@ -1,6 +1,7 @@
 import Driver.Proto
 import Driver.Dump
 import XmlRsModel.XPath.Eval
+import XmlRsModel.XPath.Safe
 /-! XPath operations of the model driver. -/
 namespace Driver
 open XmlRs XmlRs.XPath
@@ -100,5 +101,12 @@ def opNsInfo (quirks : String) (text : Str) : String :=
        | none => "err:noroot")
   | .ok (_, _) => "err:rest"
   | .error x => s!"err:{errClass x}"
+
+/-- `thm10`: is the expression one that Thm/C10 `eval_ren` speaks about (`safeE`: no `name()` / `local-name()`, no name test on
+    the namespace axis)?  `err` = not an expression -/
+def opThm10 (expr : Str) : String :=
+  match parseExpr expr with
+  | .ok e => if safeE e then "safe=1" else "safe=0"
+  | .error _ => "err"
 
 end Driver
